@@ -68,6 +68,9 @@ pub struct HCfg {
     pub reinsert_mod: u64,
     /// admission: reject hashes with hash % m == 1 (0 = admit all)
     pub admit_reject_mod: u64,
+    /// admission: answer `Throttled` for hashes with hash % m == 2 (0 = never)
+    #[serde(default)]
+    pub admit_throttle_mod: u64,
     pub indexer_shards: usize,
 }
 
@@ -92,6 +95,7 @@ impl HCfg {
             hash_div: 1,
             reinsert_mod: 0,
             admit_reject_mod: 0,
+            admit_throttle_mod: 0,
             indexer_shards: 4,
         }
     }
@@ -141,9 +145,13 @@ impl StorageFilterCondition for ModReinsert {
 }
 
 #[derive(Debug)]
-struct ModAdmit(u64, Arc<Mutex<Vec<(u64, bool)>>>);
+struct ModAdmit(u64, Arc<Mutex<Vec<(u64, bool)>>>, u64);
 impl StorageFilterCondition for ModAdmit {
     fn filter(&self, _: &Arc<foyer::Statistics>, hash: u64, _: usize) -> foyer::StorageFilterResult {
+        if self.2 != 0 && hash % self.2 == 2 {
+            self.1.lock().push((hash, false));
+            return foyer::StorageFilterResult::Throttled(std::time::Duration::from_millis(1));
+        }
         let admit = !(self.0 != 0 && hash % self.0 == 1);
         self.1.lock().push((hash, admit));
         if admit {
@@ -232,7 +240,7 @@ pub async fn open(cfg: &HCfg, dir: &std::path::Path, ctl: &Controls, recover: Re
         engine = engine.with_reinsertion_filter(StorageFilter::new().with_condition(ModReinsert(cfg.reinsert_mod)));
     }
     engine = engine.with_admission_filter(
-        StorageFilter::new().with_condition(ModAdmit(cfg.admit_reject_mod, ctl.admissions.clone())),
+        StorageFilter::new().with_condition(ModAdmit(cfg.admit_reject_mod, ctl.admissions.clone(), cfg.admit_throttle_mod)),
     );
     let policy = match cfg.policy {
         Policy::WriteOnEviction => HybridCachePolicy::WriteOnEviction,
